@@ -76,7 +76,10 @@ def _class_src(name, base, deco, fields, init=False):
     body = []
     for n, form in fields:
         body.append("    " + FORMS[form].format(n=n))
-    if init:
+    if init == "assigns":
+        first = fields[0][0] if fields else "zz"
+        body.append(f"    def __init__(self, hand, written=1):\n        self.{first} = hand\n        self.extra: int = written")
+    elif init:
         body.append("    def __init__(self, hand, written=1): ...")
     if not body:
         body.append("    pass")
@@ -115,13 +118,14 @@ def deviation_menu():
         for d in H_DECOS:
             menu.append(("deco", cls, d))
         menu.append(("init", cls))
+        menu.append(("init-assigns", cls))  # a hand-written __init__ that assigns the class's own first field and an annotated extra attribute
     return menu
 
 
 def _compatible(devs):
     slots = set()
     for d in devs:
-        slot = (d[0] if d[0] in ("deco", "init") else "field", d[1], d[2] if d[0] in ("form", "drop") else None)
+        slot = (d[0] if d[0] == "deco" else "init" if d[0] in ("init", "init-assigns") else "field", d[1], d[2] if d[0] in ("form", "drop") else None)
         if slot in slots:
             return False
         slots.add(slot)
@@ -198,6 +202,8 @@ def model_of(case):
             h[d[1]]["deco"] = d[2]
         elif d[0] == "init":
             h[d[1]]["init"] = True
+        elif d[0] == "init-assigns":
+            h[d[1]]["init"] = "assigns"
     for cls, i in drops:
         h[cls]["fields"][i] = None
     for cls, base in (("A", None), ("B", "A"), ("C", "B")):
@@ -407,6 +413,9 @@ def _key(case, prob):
     if case[0] == "N":
         return f"nested/{case[1]}/{what}/{cname.rsplit('.', 1)[-1]}" + (f"/{case[2]}" if case[2] != "@dataclass" else "")
     blamed = prob[3] if len(prob) > 3 else None
+    if case[0] == "H" and any(d[0] == "init-assigns" for d in case[1]):
+        # one cause whatever else deviates: attributes assigned in a hand-written __init__ are read as fields
+        return f"hier/init-assigns/{what}"
     fam = "init" if case[0] == "S" else "hier"
     if blamed:
         return f"{fam}/{what}/{signature_of(case, cname, blamed)}"
